@@ -21,11 +21,59 @@ pub fn noop_waker() -> Waker {
     Waker::from(Arc::new(Noop))
 }
 
-/// Poll a boxed future once with a waker that does nothing.
+thread_local! {
+    /// The runtime of the synchronous drivers.  The library is free to spawn tasks, use timers or channels
+    /// (a background reader task, for instance): everything the harness polls is polled inside this runtime's
+    /// context, and whatever the library spawned runs in `settle()`.
+    static RT: tokio::runtime::Runtime = tokio::runtime::Builder::new_current_thread()
+        .enable_all()
+        .build()
+        .expect("harness runtime");
+}
+
+/// Let everything the library runs in the background (spawned tasks, timers that are due) make progress until
+/// it is idle again.  No-op when called from inside another runtime (the multi-threaded drivers).
+pub fn settle() {
+    if tokio::runtime::Handle::try_current().is_ok() {
+        return;
+    }
+    RT.with(|rt| {
+        rt.block_on(async {
+            for _ in 0..6 {
+                tokio::task::yield_now().await;
+            }
+        });
+    });
+}
+
+/// Poll a boxed future once with a waker that does nothing (the harness decides itself what to poll next),
+/// inside the harness runtime; background work of the library runs before and after the poll.
 pub fn poll_once<T>(fut: &mut LBoxFut<'_, T>) -> Poll<T> {
     let waker = noop_waker();
     let mut cx = Context::from_waker(&waker);
-    fut.as_mut().poll(&mut cx)
+    if tokio::runtime::Handle::try_current().is_ok() {
+        return fut.as_mut().poll(&mut cx);
+    }
+    settle();
+    let r = RT.with(|rt| {
+        let _guard = rt.enter();
+        fut.as_mut().poll(&mut cx)
+    });
+    settle();
+    r
+}
+
+/// Run `f` (which creates or drops library objects) inside the harness runtime's context.
+pub fn in_runtime<R>(f: impl FnOnce() -> R) -> R {
+    if tokio::runtime::Handle::try_current().is_ok() {
+        return f();
+    }
+    let r = RT.with(|rt| {
+        let _guard = rt.enter();
+        f()
+    });
+    settle();
+    r
 }
 
 /// A server `<hello>` with the given capability URIs.
